@@ -234,6 +234,8 @@ class World:
         self.ssnet, self.client, self.server, self.helpers = ssnet, client, server, helpers
         self.rng = rng
         self.maxc, self.lbs, self.latency = maxc, lbs, latency
+        self.noise = None
+        self.eager_quiet = False
         self.log = []               # micro-step events (model input)
         self.real_snaps = []        # canonical states at each S
         self.real_waits = []
@@ -466,6 +468,27 @@ class World:
                 ww.append(s)
         return rr, ww, []
 
+    def add_noise_handlers(self):
+        """a handler per end, AFTER the Mux in the handler list (like a UdpProxy / DnsProxy of that end), whose
+        callback sends a datagram message: traffic that latency control never holds back.  The identifier is
+        unknown to the peer, which logs and drops the message."""
+        ssnet = self.ssnet
+        world = self
+
+        class NSock(object):
+            def __init__(self, n):
+                self.n = n
+
+            def fileno(self):
+                return 900 + self.n
+
+        for n, side in enumerate(("c", "s")):
+            def cb(sock, side=side):
+                nz = world.noise
+                if not world.eager_quiet and world.rng.random() < nz["p"]:
+                    world.mux[side].send(nz["chan"], 0x420d, bytes(world.rng.choice(nz["sizes"])))
+            self.handlers[side].append(ssnet.Handler([NSock(n)], cb))
+
     def new_flow(self, app_plan, dst_plan):
         s = FSock(self, "app%d" % len(self.app_socks), app_plan)
         self.socks.append(s)
@@ -625,6 +648,14 @@ def gen_case(rng, profile, quick=True):
         c["iters"] = 120
     if profile in ("bulk", "close") and rng.random() < 0.3:
         c["latency"] = False
+    if profile == "noise":
+        # stream transfers mixed with datagram-style messages that are never paused
+        c["lbs"] = rng.choice([2048, 4096, 32768])
+        c["latency"] = True
+        c["iters"] = 150
+        c["noise"] = {"p": rng.choice([0.2, 0.5]), "chan": 60000, "sizes": rng.choice([[3000], [4000, 4000, 50], [100, 3000, 9000]])}
+        nflows = rng.choice([1, 2])
+        big = True
     if profile == "many":
         # a burst of many short connections: the peer finds dozens of messages in a single read
         nflows = rng.randint(34, 48)
@@ -692,6 +723,9 @@ def run_case(ctx, case):
     rng = random.Random(case["seed"])
     w = World(rng, case["maxc"], case["lbs"], case["latency"])
     w.case = case
+    w.noise = case.get("noise")
+    if w.noise:
+        w.add_noise_handlers()
     try:
         pending = [(dict(a), dict(d)) for a, d in case["flows"]]
         w.snapshot()
@@ -720,6 +754,8 @@ def run_case(ctx, case):
         calm = 0
         w.eager = True
         for it in range(case.get('drain', 400)):
+            if it == 40:
+                w.eager_quiet = True        # the datagram-style traffic ends; the streams must still finish
             if w.crash:
                 break
             while pending:
@@ -944,6 +980,12 @@ def stream_check(ctx, prop, profiles, n_quick, n_thorough):
                  sample={"profile": profile, "maxc": case["maxc"], "lbs": case["lbs"], "latency": case["latency"],
                          "flows": [[a.get("data"), d.get("data"), d.get("connect")] for a, d in case["flows"]],
                          "micro_steps": len(w.log), "iterations": len(w.real_snaps)})
+        if case.get("noise"):
+            # no counterpart of the datagram messages in the stream model: implementation-only oracles
+            ctx.count("cases_with_unpaused_datagram_traffic")
+            for what, detail in check_oracles(w).get(prop, []):
+                ctx.violation(what, {"case": w.case, "detail": detail, "events": len(w.log)})
+            continue
         batch.append(w)
         if len(batch) >= 25:
             flush()
